@@ -49,7 +49,7 @@ def plan(tier, seed):
         dict(seeds=all_leaves, operands=ops, small=small, acts=ACTS | {"Kronecker3", "BlockDiag3"}, lvl=2, dim=8,
              forms=forms, stride=7),
         dict(seeds=all_leaves, operands=ops, small=small, acts=ACTS | {"Kronecker3", "Sum3", "Product3"}, lvl=5,
-             dim=12, forms=forms, stride=3, simulate=1200),
+             dim=12, forms=forms, stride=3, simulate=50),
     ]
 
 
